@@ -69,7 +69,7 @@ fn ksplit(r: SplitResult<TriMesh>) -> &'static str { match r { SplitResult::Nega
 fn ksection(r: IntersectResult<crate::p3::shape::Polyline>) -> &'static str { match r { IntersectResult::Negative => "neg", IntersectResult::Positive => "pos", IntersectResult::Intersect(..) => "cut" } }
 fn same(x: &str, y: &str) -> &'static str { if x == y { "same" } else { "diff" } }
 /// functions that call a plane-section routine: run in a killable child process (see `tm_section`)
-fn calls_section(func: &str) -> bool { matches!(func, "tm_section" | "tm_section_m" | "tm_section_pos" | "tm_canon_section" | "tm_plane_pos" | "tm_plane_canon" | "tm_verdict" | "tm_verdict_pos" | "tm_verdict_canon") }
+fn calls_section(func: &str) -> bool { matches!(func, "tm_section" | "tm_section_m" | "tm_section_m_pos" | "tm_section_m_canon" | "tm_section_pos" | "tm_canon_section" | "tm_plane_pos" | "tm_plane_canon" | "tm_verdict" | "tm_verdict_pos" | "tm_verdict_canon") }
 
 pub fn exec(func: &str, a: &mut Args) -> String {
     if std::env::var("C17_DRY").is_ok() { return "dry".into(); } // debugging aid: list the generated cases without calling parry
@@ -171,6 +171,10 @@ pub fn exec(func: &str, a: &mut Args) -> String {
         // ---- world-space and canonical-axis wrappers (results are expressed in the mesh's local frame, like the local functions')
         "tm_section_pos" => { let m = mesh(a); let pos = d3::iso(a); let n = d3::v(a); let bias = a.f(); let eps = a.f();
             fsection(m.intersection_with_plane(&pos, &Unit::new_unchecked(n), bias, eps)) }
+        "tm_section_m_pos" => { let m = mesh(a); let pos = d3::iso(a); let n = d3::v(a); let bias = a.f(); let eps = a.f();
+            fsection(m.intersection_with_plane(&pos, &Unit::new_unchecked(n), bias, eps)) }
+        "tm_section_m_canon" => { let m = mesh(a); let axis = a.u(); let bias = a.f(); let eps = a.f();
+            fsection(m.canonical_intersection_with_plane(axis, bias, eps)) }
         "tm_canon_split" => { let m = mesh(a); let axis = a.u(); let bias = a.f(); let eps = a.f();
             fsplit(m.canonical_split(axis, bias, eps)) }
         "tm_canon_section" => { let m = mesh(a); let axis = a.u(); let bias = a.f(); let eps = a.f();
@@ -702,6 +706,7 @@ pub fn gen(r: &mut Rng, thorough: bool) -> Vec<(String, String)> {
             v.push(("tm_split_pos".into(), args.clone()));
             v.push(("tm_cut_pos".into(), args.clone()));
             v.push(("tm_section_pos".into(), args.clone()));
+            v.push(("tm_section_m_pos".into(), args.clone()));
             v.push(("tm_verdict_pos".into(), args.clone()));
             let un = Unit::new_unchecked(nrm);
             let la = pos.inverse_transform_unit_vector(&un);
@@ -720,6 +725,7 @@ pub fn gen(r: &mut Rng, thorough: bool) -> Vec<(String, String)> {
             v.push(("tm_canon_split".into(), args.clone()));
             v.push(("tm_cut_canon".into(), args.clone()));
             v.push(("tm_canon_section".into(), args.clone()));
+            v.push(("tm_section_m_canon".into(), args.clone()));
             v.push(("tm_verdict_canon".into(), args.clone()));
             v.push(("tm_plane_canon".into(), format!("{} {}", args, d3::hv(&V3::ith_axis(axis)))));
         }
